@@ -2,6 +2,7 @@ package valsim
 
 import (
 	"fmt"
+	spectypes "github.com/bloxapp/ssv-spec/types"
 	"strings"
 
 	"github.com/bloxapp/ssv/network/commons"
@@ -88,6 +89,14 @@ func (w *world) submit(src, topic string, data []byte, expect string) string {
 	return verdict
 }
 
+func partialSlot(h *hmsg) uint64 {
+	spm := &spectypes.SignedPartialSignatureMessage{}
+	if h.ssv == nil || spm.Decode(h.ssv.Data) != nil {
+		return ^uint64(0)
+	}
+	return uint64(spm.Message.Slot)
+}
+
 // pump gossips up to n queued honest messages: mutants first (mask selects which), then the message
 // itself, then the post-accept mutants, then delivery to the committee (which may broadcast more).
 func (w *world) pump(n int, mask int64) {
@@ -104,6 +113,21 @@ func (w *world) pump(n int, mask int64) {
 			w.d.Probe("honest-accepted:" + h.kind)
 			if w.prop == "C09" {
 				w.mutantsAfter(h, mask)
+				// per-signer history must survive other traffic of the same signer: after an accepted
+				// partial-signature message the history mutants of the signer's last accepted consensus
+				// message of that slot are gossiped again (all of them: they are cheap and rare)
+				k := fmt.Sprintf("%d/%d/%d", h.vi, h.role, h.from)
+				if sm := decodeCons(h); sm != nil && single(sm) {
+					w.lastCons[k] = h
+					w.lastConsOrder = append(w.lastConsOrder, h)
+				} else if h.kind == "partial" {
+					if last := w.lastCons[k]; last != nil {
+						if sm := decodeCons(last); sm != nil && uint64(sm.Message.Height) == partialSlot(h) {
+							w.d.Probe("history-mutants-after-partial")
+							w.mutantsAfter(last, -1)
+						}
+					}
+				}
 			}
 		} else {
 			w.d.Probe("diag-honest-" + v + ":" + h.kind) // C10's business, not ours
